@@ -3,7 +3,7 @@
    products are assembled from.  Part 2 (distributed, composed with the halo exchange of C03) is in
    Dist/ParSpmvProofs.v and stated below once available.
    dot_row dn x n = sum_{c<n} dn c * x_c. *)
-From Raptor Require Import Base.Sums Sparse.Defs Sparse.ConvertProofs Sparse.SpmvProofs Dist.Comm Dist.CommProofs Dist.ParMat Dist.ParSpmvProofs Dist.ParSpmvTProofs Sparse.Block Sparse.BlockProofs Dist.Tap Dist.TapProofs Dist.TapSpmvProofs Sparse.CooDedupProofs Dist.AssembleProofs.
+From Raptor Require Import Base.Sums Sparse.Defs Sparse.ConvertProofs Sparse.SpmvProofs Dist.Comm Dist.CommProofs Dist.ParMat Dist.ParSpmvProofs Dist.ParSpmvTProofs Sparse.Block Sparse.BlockProofs Dist.Tap Dist.TapProofs Dist.TapSpmvProofs Sparse.CooDedupProofs Dist.AssembleProofs Dist.ParBlock Dist.ParBlockProofs.
 
 Section C02.
 Variable F : Type.
@@ -195,6 +195,37 @@ Theorem C02_assembly_represents_triples (small : F -> bool) (trip : list (ent F)
   = den_ents F zero add (filter (fun e => negb (small (eval e))) trip) (fr + li) j.
 Proof. exact (gden_assemble F zero one add mul sub opp Fth small trip fr nr fc nc li j). Qed.
 
+(* distributed block formats (ParBSR): the package is built and checked on BLOCK ids; expanded to b_cols scalars per
+   block id it passes the scalar check, so the products of the expanded rank states (what the block kernels compute,
+   C02_block_kernels) are the rows of the global operator, which in terms of the stored blocks is `bgden_row`:
+   entry (I*br + r, J*bc + c) = sum of the (r, c) entries of the blocks a rank stores at block position (I, J) *)
+Theorem C02_block_package_check_lifts bc (w : world) (ids colmaps : list (list nat)) (big big' : nat) :
+  fwd_ok w ids colmaps big = true -> sizes_ok w = true -> in_range w (map (@length nat) ids) = true ->
+  fwd_ok (expand_world bc w) (map (expand_ids bc) ids) (map (expand_ids bc) colmaps) big' = true.
+Proof. exact (fwd_ok_expand bc w ids colmaps big big'). Qed.
+
+Theorem C02_distributed_block_product br bc (w : world) (st : list (rank_state (list F))) (X : list F)
+        (big big' N : nat) p :
+  let dfltB := mkRS 0 0 0 0 (mkCsr 0 0 []) (mkCsr 0 0 []) [] : rank_state (list F) in
+  fwd_ok w (map (fun rs => seq (rs_fc rs) (rs_nc rs)) st) (map (fun rs => rs_colmap rs) st) big = true ->
+  sizes_ok w = true -> in_range w (map (fun rs => rs_nc rs) st) = true ->
+  length X <= big' -> length w = length st -> p < length st ->
+  rs_wf (list F) N (nth p st dfltB) ->
+  let st' := map (expand_state F zero br bc) st in
+  let b := nth p (par_mult F zero add mul (expand_world bc w) st'
+                   (map (fun rs => map (fun c => nth c X zero) (seq (rs_fc rs) (rs_nc rs))) st')) [] in
+  (forall li, li < rs_nr (nth p st dfltB) * br ->
+     xat b li = dot (gden_row F zero add (expand_state F zero br bc (nth p st dfltB)) li) X (N * bc)) /\
+  (forall I J r c, r < br -> c < bc ->
+     gden_row F zero add (expand_state F zero br bc (nth p st dfltB)) (I * br + r) (J * bc + c)
+     = bgden_row F zero add (nth p st dfltB) bc I J r c).
+Proof.
+  intros dfltB Hok Hsz Hrg Hbig Hlen Hp Hwf st' b. split.
+  - intros li Hli. exact (par_bmult_global F zero one add mul sub opp Fth br bc w st X big big' N p li Hok Hsz Hrg Hbig Hlen Hp Hwf Hli).
+  - intros I J r c Hr Hc. destruct Hwf as [Hon [_ [_ [Hoff _]]]].
+    exact (gden_expand_state F zero one add mul sub opp Fth br bc (nth p st dfltB) I J r c Hon Hoff Hr Hc).
+Qed.
+
 End C02.
 
 Print Assumptions C02_coo_kernels.
@@ -207,3 +238,5 @@ Print Assumptions C02_block_kernels.
 Print Assumptions C02_tap_products_are_global_products.
 Print Assumptions C02_tap_mult_T_is_global_transpose_product.
 Print Assumptions C02_assembly_represents_triples.
+Print Assumptions C02_block_package_check_lifts.
+Print Assumptions C02_distributed_block_product.
